@@ -11,16 +11,18 @@ def binHi (n bins i : Nat) : Nat := n * (i + 1) / bins
 
 def mean (l : List Rat) : Rat := l.sum / (l.length : Nat)
 
-/-- `MakeBins(values, centers, bins)`; `vals` already sorted ascending -/
-def makeBinsGo (vals : List Rat) (bins : Nat) : Nat → Option Rat → List (Option Rat)
-  | 0, _ => []
-  | k+1, prev =>
-    let i := bins - (k + 1)
-    let seg := (vals.drop (binLo vals.length bins i)).take (binHi vals.length bins i - binLo vals.length bins i)
-    let c := if seg.isEmpty then prev else some (mean seg)
-    c :: makeBinsGo vals bins k c
+/-- the values `MakeBins` averages for bin `i`: `[values.begin()+n*i/bins, values.begin()+n*(i+1)/bins)` -/
+def seg (vals : List Rat) (bins i : Nat) : List Rat :=
+  (vals.drop (binLo vals.length bins i)).take (binHi vals.length bins i - binLo vals.length bins i)
 
-def makeBins (vals : List Rat) (bins : Nat) : List (Option Rat) := makeBinsGo vals bins bins none
+/-- centre of bin `i` as the loop of `MakeBins` computes it: the mean of the bin, or — zero-length bucket —
+the previous centre (`-inf` = `none` for a leading empty bin) -/
+def centreAt (vals : List Rat) (bins : Nat) : Nat → Option Rat
+  | 0 => if (seg vals bins 0).isEmpty then none else some (mean (seg vals bins 0))
+  | i+1 => if (seg vals bins (i+1)).isEmpty then centreAt vals bins i else some (mean (seg vals bins (i+1)))
+
+/-- `MakeBins(values, centers, bins)`; `vals` already sorted ascending -/
+def makeBins (vals : List Rat) (bins : Nat) : List (Option Rat) := (List.range bins).map (centreAt vals bins)
 
 def ltOpt (c : Option Rat) (v : Rat) : Bool := match c with | none => true | some x => x < v
 
